@@ -93,6 +93,7 @@ M = [
     ("C14", "foreign-attrs-kept", "svg.py", "            for attr in attr_to_rm:\n                del el.attrib[attr]", "            pass"),
     ("C14", "anon-symbols-kept", "svg.py", "        self.remove_anonymous_symbols(inplace=True)\n        self.remove_title_meta_desc(inplace=True)", "        self.remove_title_meta_desc(inplace=True)"),
     ("C14", "bare-group-kept", "svg.py", "    if len(el.attrib) == 0:\n        return True\n    num_children", "    num_children"),
+    ("C15", "checkpicosvg-no-flush", "svg.py", "        If result sequence empty then this is a valid picosvg.\n        \"\"\"\n\n        self._update_etree()", "        If result sequence empty then this is a valid picosvg.\n        \"\"\"\n"),
     ("C15", "set-attributes-no-flush", "svg.py", "            svg.set_attributes(name_values, xpath=xpath, inplace=True)\n            return svg\n\n        self._update_etree()", "            svg.set_attributes(name_values, xpath=xpath, inplace=True)\n            return svg\n"),
     ("C15", "inplace-returns-clone", "svg.py", "        for shape in self.shapes():\n            shape.normalize_opacity(inplace=True)\n\n        return self", "        for shape in self.shapes():\n            shape.normalize_opacity(inplace=True)\n\n        return self._clone()"),
     ("C15", "simplify-keeps-cache", "svg.py", "        self.elements = None  # force elements to reload\n\n    def simplify", "        pass\n\n    def simplify"),
